@@ -238,6 +238,34 @@ pub fn sliced_cx(cx: &mut Cx, p: &SlicedPacket) -> Whole {
     }
     acc.push(("is_ip_payload_fragmented", p.is_ip_payload_fragmented() as u128));
     acc.push(("vlan_ids", p.vlan_ids().iter().fold(1u128, |a, v| (a << 16) | v.value() as u128)));
+    // redundant views must agree with the fields they are views of (1 = consistent)
+    {
+        let mut ok = true;
+        if let Some(n) = &p.net {
+            ok &= n.is_ip() == matches!(n, NetSlice::Ipv4(_) | NetSlice::Ipv6(_));
+            ok &= match (n.ip_payload_ref(), p.ip_payload()) {
+                (Some(a), Some(b)) => a.payload.as_ptr() == b.payload.as_ptr() && a.payload.len() == b.payload.len() && a.ip_number == b.ip_number && a.fragmented == b.fragmented,
+                (None, None) => true,
+                _ => false,
+            };
+            ok &= n.ipv4_ref().is_some() == matches!(n, NetSlice::Ipv4(_)) && n.ipv6_ref().is_some() == matches!(n, NetSlice::Ipv6(_)) && n.arp_ref().is_some() == matches!(n, NetSlice::Arp(_));
+        }
+        if let Some(l) = &p.link {
+            if let LinkSlice::LinuxSll(s) = l {
+                let sp = l.sll_payload();
+                ok &= sp.payload.as_ptr() == s.payload().payload.as_ptr() && sp.payload.len() == s.payload().payload.len() && sp.protocol_type == s.payload().protocol_type;
+            }
+        }
+        // vlan(): the two outermost VLAN tags
+        let tags: Vec<(u16, u16)> = p.link_exts.iter().filter_map(|e| if let LinkExtSlice::Vlan(v) = e { Some((v.vlan_identifier().value(), v.ether_type().0)) } else { None }).collect();
+        ok &= match (p.vlan(), tags.len()) {
+            (None, 0) => true,
+            (Some(VlanSlice::SingleVlan(s)), 1) => (s.vlan_identifier().value(), s.ether_type().0) == tags[0],
+            (Some(VlanSlice::DoubleVlan(d)), n) if n >= 2 => (d.outer.vlan_identifier().value(), d.outer.ether_type().0) == tags[0] && (d.inner.vlan_identifier().value(), d.inner.ether_type().0) == tags[1],
+            _ => false,
+        };
+        acc.push(("views_consistent", ok as u128));
+    }
     Whole {
         out: NOut::ok(layers),
         pay,
@@ -404,6 +432,24 @@ pub fn lax_sliced_cx(cx: &mut Cx, p: &LaxSlicedPacket) -> Whole {
         acc.push(("ip.incomplete", i.incomplete as u128));
     }
     acc.push(("vlan_ids", p.vlan_ids().iter().fold(1u128, |a, v| (a << 16) | v.value() as u128)));
+    {
+        let mut ok = true;
+        if let Some(n) = &p.net {
+            ok &= match (n.ip_payload_ref(), p.ip_payload()) {
+                (Some(a), Some(b)) => a.payload.as_ptr() == b.payload.as_ptr() && a.payload.len() == b.payload.len() && a.ip_number == b.ip_number && a.fragmented == b.fragmented,
+                (None, None) => true,
+                _ => false,
+            };
+        }
+        let tags: Vec<(u16, u16)> = p.link_exts.iter().filter_map(|e| if let LaxLinkExtSlice::Vlan(v) = e { Some((v.vlan_identifier().value(), v.ether_type().0)) } else { None }).collect();
+        ok &= match (p.vlan(), tags.len()) {
+            (None, 0) => true,
+            (Some(VlanSlice::SingleVlan(s)), 1) => (s.vlan_identifier().value(), s.ether_type().0) == tags[0],
+            (Some(VlanSlice::DoubleVlan(d)), n) if n >= 2 => (d.outer.vlan_identifier().value(), d.outer.ether_type().0) == tags[0] && (d.inner.vlan_identifier().value(), d.inner.ether_type().0) == tags[1],
+            _ => false,
+        };
+        acc.push(("views_consistent", ok as u128));
+    }
     Whole {
         out: NOut {
             layers,
